@@ -35,7 +35,10 @@ RULE = (
     "non-trivial = the location resolves (kernel) to an existing file or directory, i.e. there is something a "
     "non-failing read could deliver; distinct = distinct (route, base spelling, location, entry point) tuples. "
     "ir.load cases additionally judge the base directory of every external tensor of the loaded model "
-    "(9 positions) for one path spelling each."
+    "(9 positions) for one path spelling each. Stateful cases (16%) keep one tensor object alive: read via entry point A "
+    "-> the data file is swapped for a symlink / hard link / dir-symlink escape, gains a hard link, is replaced or "
+    "restored, or base_dir is re-pointed, optionally followed by release()/invalidate() -> read via entry point B, "
+    "judged against the truth recomputed at the time of the second read."
 )
 ASSUMPTIONS = [
     "Linux/POSIX path semantics; the kernel's resolution of (base dir fd, location) is the definition of the fully resolved location",
@@ -44,6 +47,8 @@ ASSUMPTIONS = [
     "CPython audit events 'open' and 'mmap.__new__' are raised for every file open / mapping made from Python code (PEP 578); "
     "opens from C extensions that bypass them are only visible to the strace observer (thorough tier)",
     "'raises' accepts any Exception type; an allowed location that is refused is not a violation (report_only)",
+    "bytes of the file validated by an earlier read that are served from the tensor's retained mapping after the file or "
+    "base_dir changed (nothing is opened) are report_only: the statement does not say a mapping must be dropped",
     "FIFOs, devices and sockets are not placed in the sandbox",
 ]
 
@@ -54,17 +59,19 @@ def plan(tier: str) -> dict:
         "cases": 48000 if quick else 640000,
         "shards": 16,
         "budget_s": 35 if quick else 420,
-        # floors: roughly a fifth of what an undisturbed run observes, so that a loaded machine
+        # floors: roughly a tenth of what an undisturbed run observes, so that a loaded machine
         # (shards stop at budget_s) still passes while a run whose monitors saw little does not
         "floors": (
             {
-                "reads_judged": 15000,
-                "outcome:allowed-read-ok": 2500,
-                "disallowed_existing_file_refused": 7000,
-                "audit_inventory_open": 2500,
-                "audit_inventory_mmap": 1200,
-                "load_base_dir_ok": 7000,
-                "load_spelling:bare-filename": 150,
+                "reads_judged": 10000,
+                "outcome:allowed-read-ok": 1500,
+                "disallowed_existing_file_refused": 4500,
+                "audit_inventory_open": 1800,
+                "audit_inventory_mmap": 900,
+                "load_base_dir_ok": 5000,
+                "load_spelling:bare-filename": 100,
+                "stateful_cases": 800,
+                "stateful_refused_although_previously_mapped": 80,
             }
             if quick
             else {
@@ -75,11 +82,13 @@ def plan(tier: str) -> dict:
                 "audit_inventory_mmap": 18000,
                 "load_base_dir_ok": 90000,
                 "load_spelling:bare-filename": 2000,
+                "stateful_cases": 20000,
+                "stateful_refused_although_previously_mapped": 2000,
                 "strace_cases_observed": 1000,
                 "strace_inventory_open": 150,
             }
         ),
-        "min_nontrivial": 8000 if quick else 60000,
+        "min_nontrivial": 6000 if quick else 60000,
         "params": {"strace_batch": 0 if quick else 150},
     }
 
@@ -297,6 +306,226 @@ def report_read_violations(ctx, sb: Sandbox, spec: dict, truth, outcome, viols) 
         t2, o2, _ = run_read_case(ctx, sb, small, count=False)
         ctx.violation(sig, f"{text}. Witness (shrunk): {describe(sb, small, t2, o2)}",
                       {"kind": "read", "spec": small})
+
+
+# --------------------------------------------------------------------------------------------
+# stateful cases: one tensor object, read -> mutation -> read
+# --------------------------------------------------------------------------------------------
+
+ALL_ENTRIES = L.TENSOR_ENTRIES + L.MODEL_ENTRIES
+DYN_BASES = [  # (class, cwd rel to R, base template) for the initial base dyn/base
+    ("abs", "work", "$R/dyn/base"), ("abs-trailing-sep", "work", "$R/dyn/base/"), ("rel", "dyn", "base"),
+    ("dot", "dyn/base", "."), ("via-symlink-abs", "work", "$R/dyn/base_link"), ("via-symlink-rel", "dyn", "base_link"),
+]
+# location -> the directory entry (relative to dyn/base) whose replacement changes what it denotes
+DYN_LOCS = {"w.bin": "w.bin", "./w.bin": "w.bin", "sub/w2.bin": "sub/w2.bin", "sub/../w.bin": "w.bin",
+            "ln_w": "w.bin", "$R/dyn/base/w.bin": "w.bin"}
+FILE_MUTATIONS = ["swap-symlink-out", "swap-symlink-out-rel", "swap-hardlink-out", "add-hardlink",
+                  "swap-symlink-inside", "swap-regular"]
+REBASE = {  # mutation -> new base_dir template
+    "rebase-prefix-sibling": "$R/dyn/base_evil", "rebase-dir-with-symlink-out": "$R/dyn/alt_sym",
+    "rebase-dir-with-hardlink": "$R/dyn/alt_hl", "rebase-outside-dir": "$R/dyn/out",
+    "rebase-parent": "$R/dyn", "rebase-symlink-to-same": "$R/dyn/base_link",
+}
+SUFFIXES = ["", "", "", "release", "restore", "invalidate"]
+
+
+def gen_stateful_case(rng, sb: Sandbox) -> dict:
+    bcls, cwd, base = rng.choice(DYN_BASES)
+    loc = rng.choice(list(DYN_LOCS))
+    muts = list(FILE_MUTATIONS) + list(REBASE) + ["none"]
+    if loc == "sub/w2.bin":
+        muts += ["swap-dir-symlink-out"] * 3
+    if loc == "ln_w":
+        muts += ["retarget-symlink-out"] * 3
+    mut = rng.choice(muts)
+    suffix = rng.choice(SUFFIXES)
+    spec = {"target": "dyn/base", "route": rng.choice(["ctor", "setter", "deserialize"]), "cwd": cwd, "base": base,
+            "base_class": bcls, "loc": loc, "A": rng.choice(["none"] + ALL_ENTRIES), "mut": mut, "suffix": suffix,
+            "B": rng.choice(ALL_ENTRIES), "positionA": rng.choice(["init", "subinit"]),
+            "positionB": rng.choice(["init", "subinit"])}
+    spec.update(L.gen_tensor_params(rng))
+    return spec
+
+
+def _apply_mutation(sb: Sandbox, spec: dict, t, mut: str, cur_base: str) -> str:
+    """Harness-side change of the world; returns the (possibly new) base_dir string."""
+    R = sb.R
+    victim = f"{R}/dyn/base/{DYN_LOCS[spec['loc']]}"
+    rel_in_out = DYN_LOCS[spec["loc"]]  # same relative name exists under dyn/out
+    if mut in ("none", ""):
+        pass
+    elif mut == "swap-symlink-out":
+        os.unlink(victim)
+        os.symlink(f"{R}/dyn/out/{rel_in_out}", victim)
+    elif mut == "swap-symlink-out-rel":
+        os.unlink(victim)
+        os.symlink(("../" * (1 + rel_in_out.count("/"))) + "out/" + rel_in_out, victim)
+    elif mut == "swap-hardlink-out":
+        os.unlink(victim)
+        os.link(f"{R}/dyn/out/{rel_in_out}", victim)
+    elif mut == "add-hardlink":
+        os.link(victim, f"{R}/dyn/out/extra.bin")
+    elif mut == "swap-symlink-inside":
+        os.unlink(victim)
+        os.symlink(f"{R}/dyn/base/other.bin", victim)
+    elif mut == "swap-regular":
+        os.unlink(victim)
+        with open(victim, "wb") as f:
+            f.write(L.canary("dyn-new-content"))
+    elif mut == "swap-dir-symlink-out":
+        os.rename(f"{R}/dyn/base/sub", f"{R}/dyn/hold/sub_real")
+        os.symlink("../out/sub", f"{R}/dyn/base/sub")
+    elif mut == "retarget-symlink-out":
+        os.unlink(f"{R}/dyn/base/ln_w")
+        os.symlink("../out/w.bin", f"{R}/dyn/base/ln_w")
+    elif mut in REBASE:
+        cur_base = sb.subst(REBASE[mut])
+        t.base_dir = cur_base
+    elif mut == "release":
+        t.release()
+    elif mut == "invalidate":
+        t.invalidate()
+    elif mut == "restore":
+        sb.dyn_reset()
+    else:
+        raise AssertionError(mut)
+    return cur_base
+
+
+def _stateful_entry(sb: Sandbox, entry: str, t, position: str):
+    sb.reset_scratch()
+    AUDIT.events = []
+    try:
+        if entry in L.MODEL_ENTRIES:
+            model = L.lib(lambda: L.model_with(t, position, companion="parallel" in entry))
+            return ("bytes", L.run_model_entry(sb, entry, model, t.name)), AUDIT.events
+        return ("bytes", L.run_tensor_entry(sb, entry, t)), AUDIT.events
+    except LibRaised as e:
+        return ("raised", e.exc), AUDIT.events
+
+
+def run_stateful_case(ctx, sb: Sandbox, spec: dict, count: bool = True):
+    """-> (violations [(kinds, text)], truth at second read, outcome of second read)."""
+    c = ctx if count else _NullCtx()
+    sb.dyn_reset()
+    os.chdir(f"{sb.R}/{spec['cwd']}")
+    base_o, loc_o = _objs(sb, spec)
+    cur_base = base_o
+    off = spec["offset"] or 0
+    n = L.nbytes_of(spec)
+    t = None
+    try:
+        try:
+            t = L.lib(lambda: L.make_tensor(spec["route"], base_o, loc_o, spec))
+        except LibRaised:
+            c.count("stateful_construction_raised")
+            return [], None, None
+        # ---- first read: must be the legitimate one --------------------------------------------
+        prev = None
+        if spec["A"] != "none":
+            truth0 = L.compute_truth(sb, base_o, loc_o)
+            assert truth0.allowed, "harness: stateful cases start at an allowed location"
+            outcome0, events0 = _stateful_entry(sb, spec["A"], t, spec["positionA"])
+            for kind, sig, text in judge_read(_NullCtx(), sb, dict(spec, entry=spec["A"]), truth0, outcome0, events0):
+                raise AssertionError(f"harness: first read of a stateful case misbehaved: {sig} {text}")
+            if outcome0[0] == "raised":
+                c.count("report_only_stateful_first_read_refused")
+                return [], None, None
+            prev = outcome0[1]
+            c.count("stateful_first_read_ok")
+        mapped = getattr(t, "raw", None) is not None  # counting only
+        # ---- the world changes -----------------------------------------------------------------
+        for m in (spec["mut"], spec["suffix"]):
+            cur_base = _apply_mutation(sb, spec, t, m, cur_base)
+        sb.scan_dyn()
+        # ---- second read, judged against the truth as it is *now* ------------------------------
+        truth = L.compute_truth(sb, cur_base, loc_o)
+        outcome, events = _stateful_entry(sb, spec["B"], t, spec["positionB"])
+        c.count("stateful_cases")
+        c.count(f"stateA:{spec['A']}")
+        c.count(f"stateB:{spec['B']}")
+        c.count(f"mut:{spec['mut']}{'+' + spec['suffix'] if spec['suffix'] else ''}")
+        c.count(f"stateful_truth:{truth.cls}")
+        kinds, texts = [], []
+        opened_files = 0
+        for ev in events:
+            e = sb.inv.get((ev[1], ev[2]))
+            if e is None or e.kind == "dir":
+                continue
+            opened_files += 1
+            c.count(f"audit_inventory_{ev[0]}")
+            if truth.allowed and (ev[1], ev[2]) == truth.key:
+                continue
+            kinds.append(f"{ev[0]}-observed")
+            texts.append(f"{ev[0]}({ev[3]}) reached {e.relpaths} (nlink={e.nlink}), not an allowed file now")
+        if outcome[0] == "raised":
+            exc = type(outcome[1]).__name__
+            if truth.allowed:
+                c.count("report_only_allowed_location_refused")
+            else:
+                c.count(f"stateful_outcome:disallowed-raised:{exc}")
+                if truth.exists and not truth.cls.startswith("directory"):
+                    c.count("stateful_disallowed_existing_file_refused")
+                    if mapped:
+                        c.count("stateful_refused_although_previously_mapped")
+        else:
+            data = outcome[1]
+            src = sb.source_of(data, off) if len(data) >= 8 else None
+            if truth.allowed and src is sb.inv[truth.key] and len(data) == n:
+                c.count("stateful_outcome:allowed-read-ok")
+            elif prev is not None and data == prev:
+                # bytes of the file validated by the first read, served from the retained mapping
+                # (the statement does not say a mapping must be dropped).  If instead the file was
+                # re-opened by name and is not allowed now, the open observed above already counts.
+                fam = "base_dir_change" if spec["mut"] in REBASE else "file_change"
+                c.count(f"report_only_stale_mapping_served_after_{fam}")
+            elif truth.allowed and src is None:
+                c.count("report_only_allowed_read_unexpected_bytes")
+            else:
+                kinds.append("bytes-returned")
+                texts.append(f"{len(data)} byte(s) delivered (canary of {src.relpaths if src else '?'}) although the "
+                             f"location is now {'allowed but another file' if truth.allowed else 'not allowed: ' + truth.cls}")
+        viols = [(sorted(set(kinds)), "; ".join(texts))] if kinds else []
+        return viols, truth, outcome
+    finally:
+        _release(t)
+        sb.dyn_reset()
+
+
+def stateful_signature(spec: dict) -> str:
+    mut = spec["mut"] + ("+" + spec["suffix"] if spec["suffix"] else "")
+    return f"escape-after-prior-read|A={spec['A']}|mut={mut}|B={spec['B']}"
+
+
+def describe_stateful(spec: dict, truth, outcome) -> str:
+    out = f"raised {outcome[1]!r}"[:200] if outcome[0] == "raised" else f"returned {len(outcome[1])} bytes"
+    return (f"tensor(location={spec['loc']!r}, base_dir={spec['base']!r} [{spec['base_class']}, cwd=$R/{spec['cwd']}, "
+            f"route={spec['route']}], dtype={spec['dtype']}, shape={spec['shape']}, offset={spec['offset']}, "
+            f"length={spec['length']}): step 1 read via {spec['A']}; step 2 {spec['mut']}"
+            f"{' then ' + spec['suffix'] if spec['suffix'] else ''}; step 3 read via {spec['B']} -> {out}; truth at step 3: "
+            f"{truth.cls} allowed={truth.allowed} resolves_to={truth.relpaths} (base $R/{truth.base_rel})")
+
+
+def report_stateful(ctx, sb: Sandbox, spec: dict, viols) -> None:
+    def still(sp):
+        v, _, _ = run_stateful_case(ctx, sb, sp, count=False)
+        return bool(v)
+
+    cur = dict(spec)
+    for change in ({"suffix": ""}, {"A": "none"}, {"route": "ctor"},
+                   {"base": "$R/dyn/base", "cwd": "work", "base_class": "abs"},
+                   {"dtype": "UINT8", "shape": [8], "offset": None, "length": None}):
+        if all(cur.get(k) == v for k, v in change.items()):
+            continue
+        cand = dict(cur, **change)
+        if still(cand):
+            cur = cand
+    v, truth, outcome = run_stateful_case(ctx, sb, cur, count=False)
+    kinds, text = v[0]
+    ctx.violation(stateful_signature(cur),
+                  f"{'/'.join(kinds)}: {text}. Witness (shrunk): {describe_stateful(cur, truth, outcome)}",
+                  {"kind": "stateful", "spec": cur})
 
 
 # --------------------------------------------------------------------------------------------
@@ -642,7 +871,21 @@ def run(ctx) -> None:
         for case in ctx.case_ids():
             rng = ctx.rng(case)
             n_cases += 1
-            if rng.random() < 1 / 6:
+            kind_draw = rng.random()
+            if kind_draw > 0.84:
+                spec = gen_stateful_case(rng, sb)
+                viols, truth, outcome = run_stateful_case(ctx, sb, spec)
+                if truth is not None:
+                    ctx.evaluation(key=["stateful", spec["base"], spec["loc"], spec["A"], spec["mut"], spec["suffix"],
+                                        spec["B"]], nontrivial=truth.exists and spec["A"] != "none")
+                    if n_cases % 40 == 11:
+                        ctx.sample({"kind": "stateful", "A": spec["A"], "mut": spec["mut"], "suffix": spec["suffix"],
+                                    "B": spec["B"], "location": spec["loc"], "truth_at_second_read": truth.cls,
+                                    "outcome": outcome[0] if outcome[0] == "bytes" else type(outcome[1]).__name__})
+                if viols:
+                    report_stateful(ctx, sb, spec, viols)
+                continue
+            if kind_draw < 1 / 6:
                 spec = gen_load_case(rng, sb)
                 viols = run_load_case(ctx, sb, spec)
                 ctx.evaluation(key=["load-clause", spec["spelling"], spec["cwd"], spec["pathlike"], spec["mode"]],
@@ -680,7 +923,12 @@ def replay(replay_data, ctx) -> None:
     AUDIT.install()
     try:
         spec = replay_data["spec"]
-        if replay_data["kind"] == "load":
+        if replay_data["kind"] == "stateful":
+            viols, truth, outcome = run_stateful_case(ctx, sb, spec)
+            for kinds, text in viols:
+                ctx.violation(stateful_signature(spec),
+                              f"{'/'.join(kinds)}: {text}. Witness: {describe_stateful(spec, truth, outcome)}", replay_data)
+        elif replay_data["kind"] == "load":
             for sig, msg in run_load_case(ctx, sb, spec):
                 ctx.violation(sig, msg, replay_data)
         else:
